@@ -60,6 +60,8 @@ def _explore_shard(args):
     """worker: explore the subtree below `prefix`; with `depth` set, stop at that many decisions and return the frontier"""
     hname, p, prefix, depth, limits = args
     t_start = time.time()
+    if multiprocessing.current_process().name != "MainProcess" and not os.environ.get("SX_DEBUG"):
+        sys.stdout = open(os.devnull, "w")  # the code under check prints diagnostics; workers report through return values
     h = HARNESSES[hname]
     eng = core.Engine(**limits.get("engine", {}))
     max_cex = limits.get("max_cex", 40)
